@@ -36,6 +36,8 @@ func TestSweep(t *testing.T) {
 		Oracle.One(t, env, rec, "sweep", &Case{S: e.S.Name, D: e.D.Name, Amps: BAmps[ds], Fix: 3}) // buffers recycled through a pool
 		Oracle.One(t, env, rec, "sweep", &Case{S: e.S.Name, D: e.D.Name, Amps: BAmps[ds], Fix: 4}) // buffers grown out of an empty window by Append
 		Oracle.One(t, env, rec, "sweep", &Case{S: e.S.Name, D: e.D.Name, Amps: BAmps[ds], Fix: 5}) // the source was the destination of a conversion before, converted through a window cut then
+		Oracle.One(t, env, rec, "sweep", &Case{S: e.S.Name, D: e.D.Name, Amps: BAmps[ds], Fix: 6}) // source two frames longer than the destination
+		Oracle.One(t, env, rec, "sweep", &Case{S: e.S.Name, D: e.D.Name, Amps: BAmps[ds], Fix: 7}) // destination two frames longer than the source
 		if ds == 8 {                                                                               // every 8-bit code, alone in short buffers and repeated in long ones
 			all := make([]int64, 256)
 			for i := range all {
